@@ -1,1 +1,3 @@
 import GristModel.Treeview
+import GristModel.Doc
+import GristModel.Engine
